@@ -9,6 +9,6 @@ echo "== tests with change:"; (cd $W && PYTHONPATH=$W /venv/bin/python -m pytest
 echo "== demo with change:"; (cd $W && PYTHONPATH=$W /venv/bin/python $D/demo.py >/dev/null 2>&1; echo "exit $?")
 # the evidence file and generated tables written by a run against a mutated tree must not survive it
 cp /verif/evidence/$P.json /tmp/ev_$$.json 2>/dev/null
-echo "== check $P quick:"; (cd /verif && DRX_REPO=$W ./check $P --tier quick 2>&1 | grep -v "^KNOWN-FINDING" | tail -3)
+echo "== check $P quick:"; (cd /verif && DRX_REPO=$W ./check $P --tier ${TIER:-quick} 2>&1 | grep -v "^KNOWN-FINDING" | tail -3)
 cp /tmp/ev_$$.json /verif/evidence/$P.json 2>/dev/null; rm -f /tmp/ev_$$.json
 (cd /verif && git checkout -- lean/Drx/Gen 2>/dev/null)
